@@ -8,11 +8,13 @@ package main
 //   layout       QCount, PCount, S2C/Mod1/C2S LevelQ, Mod1 depth of NewParametersFromLiteral
 //   generated    Galois elements of the key set returned by GenEvaluationKeys
 //   required     Galois elements requested (logging rlwe.EvaluationKeySet) during one Bootstrap
+//   scaleconst   round(log2 Q0), qDiv, EvalMod scale, S2C and C2S scalings of Evaluator.initialize (exact powers of two)
 //   needed       LevelQ / LevelP the evaluator needs from every key kind over all admissible input levels
 //   inventory    every key of the bundle: name / secrets it decrypts under / LevelQ / LevelP
 //   stages       levels after ModUp, CoeffsToSlots, EvalMod, SlotsToCoeffs
 //   output       level and scale of the bootstrapped ciphertext
 // Probes (property predicates evaluated on the real code):
+//   shallowcopy_no_shared_scratch (reflection), shallowcopy_interleaved, shallowcopy_concurrent (thorough),
 //   key_levels_sufficient, inadmissible_rejected, sparse_key_confined, sparse_secret_recovered, keys_sufficient, required_stable, output_level_scale,
 //   bootstrap_precision (measured), c2s_s2c_inverse (measured), batch_bootstrap (measured),
 //   shallowcopy_matches (copies of the evaluator), no_p_keygen, defaults_instantiable,
@@ -20,12 +22,13 @@ package main
 //   grouped_split_inverse (grouped depth splits: one rescaling per group).
 
 import (
-	"os"
-	"strconv"
 	"fmt"
 	"math"
 	"math/big"
+	"os"
+	"strconv"
 	"strings"
+	"sync"
 
 	"github.com/tuneinsight/lattigo/v6/circuits/ckks/bootstrapping"
 	"github.com/tuneinsight/lattigo/v6/circuits/ckks/dft"
@@ -37,6 +40,16 @@ import (
 )
 
 func init() { register("C18", genC18) }
+
+// read-only tables legitimately shared between an evaluator and its copies (filled from an inspection at HEAD)
+var c18CopyAllow = []string{
+	".xPow2",                            // X^{2^i} tables (read only)
+	"BasisExtender.constants",           // RNS basis-extension constants
+	"BasisExtender.modDownConstants",    //
+	"Decomposer.ModUpConstants",         //
+	"Encoder.roots", "Encoder.rotGroup", // encoder roots of unity / rotation group
+	"automorphismIndex", // per-Galois-element NTT permutation tables (the map itself is per copy)
+}
 
 func genC18(c *Ctx) {
 	c18HelperRot(c)
@@ -626,6 +639,39 @@ func c18Configs(c *Ctx) []c18Cfg {
 	q50ci.RingType = ring.ConjugateInvariant
 	out = append(out, c18Cfg{name: "q0_50_conjinv", res: q50ci, btp: bootstrapping.ParametersLiteral{LogN: utils.Pointy(logN)}, ratioAdj: adj16})
 
+	// 8c. EvalModLogScale below / equal to / above log2 Q[0], with Q[0] just below and just above 2^60:
+	// below, qDiv = 2^(EvalModLogScale - round(log2 Q0)) < 1 is folded into the CoeffsToSlots matrices
+	{
+		nth := uint64(2) << logN
+		g60 := ring.NewNTTFriendlyPrimesGenerator(60, nth)
+		up, err := g60.NextUpstreamPrime()
+		must(err)
+		dn, err := g60.NextDownstreamPrime()
+		must(err)
+		g40 := ring.NewNTTFriendlyPrimesGenerator(40, nth)
+		q1, err := g40.NextAlternatingPrime()
+		must(err)
+		g61 := ring.NewNTTFriendlyPrimesGenerator(61, nth)
+		p0, err := g61.NextDownstreamPrime()
+		must(err)
+		mk := func(q0 uint64) ckks.ParametersLiteral {
+			return ckks.ParametersLiteral{LogN: logN, Q: []uint64{q0, q1}, P: []uint64{p0}, LogDefaultScale: 40}
+		}
+		for _, v := range []struct {
+			name string
+			q0   uint64
+			em   int
+			eph  int
+		}{{"em55_q60dn", dn, 55, 32}, {"em58_q60up", up, 58, 32}, {"em58_q60dn_noeph", dn, 58, 0}, {"em60_q60up", up, 60, 32}} {
+			r := mk(v.q0)
+			if v.eph == 0 {
+				r.Xs = ring.Ternary{H: 32}
+			}
+			out = append(out, c18Cfg{name: v.name, res: r, btp: bootstrapping.ParametersLiteral{LogN: utils.Pointy(logN),
+				EvalModLogScale: utils.Pointy(v.em), EphemeralSecretWeight: utils.Pointy(v.eph)}, ratioAdj: adj16})
+		}
+	}
+
 	// 9. iterated bootstrapping with a reserved prime on 128-bit-precision residual parameters (HighPrecision)
 	hp := bootstrapping.DefaultParametersSparse[0].SchemeParams
 	hp.LogN = logN
@@ -633,12 +679,16 @@ func c18Configs(c *Ctx) []c18Cfg {
 	hp.LogDefaultScale = 80
 	out = append(out, c18Cfg{name: "iter_reserved", res: hp, btp: bootstrapping.ParametersLiteral{LogN: utils.Pointy(logN),
 		IterationsParameters: &bootstrapping.IterationsParameters{BootstrappingPrecision: []float64{25, 25}, ReservedPrimeBitSize: 28}},
-		ratioAdj: func(res ckks.Parameters, p bootstrapping.Parameters) int { return utils.Min(utils.Max(16-res.LogN(), 0), 8) }, minPrec: 12})
+		ratioAdj: func(res ckks.Parameters, p bootstrapping.Parameters) int {
+			return utils.Min(utils.Max(16-res.LogN(), 0), 8)
+		}, minPrec: 12})
 
 	// 10. iterated bootstrapping without reserved prime
 	out = append(out, c18Cfg{name: "iter_plain", res: hp, btp: bootstrapping.ParametersLiteral{LogN: utils.Pointy(logN),
 		IterationsParameters: &bootstrapping.IterationsParameters{BootstrappingPrecision: []float64{25}}},
-		ratioAdj: func(res ckks.Parameters, p bootstrapping.Parameters) int { return utils.Min(utils.Max(16-res.LogN(), 0), 8) }, minPrec: 12})
+		ratioAdj: func(res ckks.Parameters, p bootstrapping.Parameters) int {
+			return utils.Min(utils.Max(16-res.LogN(), 0), 8)
+		}, minPrec: 12})
 
 	var sel []c18Cfg
 	for _, cf := range out {
@@ -756,6 +806,39 @@ func c18Pipeline(c *Ctx, cfg c18Cfg) {
 			detail = fmt.Sprintf("%d keys protected only by the sparse secret, expected exactly EvkDenseToSparse", nSparse)
 		}
 		c.Probe("sparse_key_confined", fmt.Sprintf("%s keys=%d sparse_only=%d", tag, len(entries), nSparse), "C18-sparse-key-level", detail)
+	}
+
+	// ---- scale schedule constants of Evaluator.initialize: round(log2 Q0) (from Mod1Parameters.QDiff), qDiv (from the
+	// CoeffsToSlots scaling times K*qDiff), the EvalMod scale, the SlotsToCoeffs scaling — all exact powers of two
+	{
+		ev0, err := bootstrapping.NewEvaluator(p, evk)
+		must(err)
+		pow2 := func(x float64) string {
+			l := math.Log2(x)
+			if r := math.Round(l); math.Abs(l-r) < 1e-9 {
+				return I(int(r))
+			}
+			return fmt.Sprintf("inexact(%d/1000)", int(l*1000))
+		}
+		q0 := paramsN2.Q()[0]
+		m1 := ev0.Mod1Parameters
+		c2sF, _ := ev0.CoeffsToSlotsParameters.Scaling.Float64()
+		s2cF, _ := ev0.SlotsToCoeffsParameters.Scaling.Float64()
+		e := pow2(float64(q0) / m1.QDiff)
+		qdiv := c2sF * m1.K * m1.QDiff
+		num := new(big.Float).SetPrec(200).Mul(ev0.CoeffsToSlotsParameters.Scaling, new(big.Float).SetFloat64(m1.K))
+		num.Mul(num, new(big.Float).SetUint64(q0))
+		numI, _ := new(big.Float).Add(num, new(big.Float).SetFloat64(0.5)).Int(nil)
+		// the float64 evaluation of qDiv/(K*qDiff) is within 2^-50 of the exact value: snap to the power of two
+		if lg := math.Log2(float64(q0)) + math.Log2(c2sF*m1.K); math.Abs(lg-math.Round(lg)) < 1e-9 {
+			numI = new(big.Int).Lsh(big.NewInt(1), uint(math.Round(lg)))
+		}
+		den := new(big.Int).Mul(big.NewInt(int64(m1.K)), new(big.Int).SetUint64(q0))
+		neg := pow2(1 / qdiv)
+		out := strings.Join([]string{e, neg, pow2(m1.ScalingFactor().Float64()), pow2(s2cF), numI.String() + "/" + den.String()}, ",")
+		c.Emit(fmt.Sprintf("scaleconst q0=%d evalmod=%d ratio=%d logscale=%d k=%d ci=%s", q0, p.Mod1ParametersLiteral.LogScale,
+			p.Mod1ParametersLiteral.LogMessageRatio, paramsN2.LogDefaultScale(), p.Mod1ParametersLiteral.K, b01(res.RingType() == ring.ConjugateInvariant)), out)
+		c.Count("scaleconst")
 	}
 
 	// ---- key levels: what the evaluator needs from every key over all admissible input levels
@@ -1041,5 +1124,97 @@ func c18Pipeline(c *Ctx, cfg c18Cfg) {
 			detail = "original evaluator: " + r1 + ", ShallowCopy: " + r2
 		}
 		c.Probe("shallowcopy_matches", args, "C18-shallowcopy-xpow2invn1", detail)
+	}
+
+	// ---- ShallowCopy wiring: no scratch buffer reachable from both the evaluator and a copy (or two copies),
+	// a bootstrapping on a copy leaves the receiver's buffers and next result untouched, concurrent use
+	eval.Evaluator.Evaluator.EvaluationKeySet = evk.MemEvaluationKeySet
+	{
+		cp, cp2 := eval.ShallowCopy(), eval.ShallowCopy()
+		report := func(a, b interface{}, what string) string {
+			sh := c18SharedScratch(a, b, c18CopyAllow)
+			if os.Getenv("VERIF_DEBUG") != "" {
+				seen := map[string]bool{}
+				for _, x := range sh {
+					if !seen[x] {
+						seen[x] = true
+						fmt.Fprintln(os.Stderr, "shared", what, x)
+					}
+				}
+			}
+			if len(sh) == 0 {
+				return ""
+			}
+			n := len(sh)
+			if n > 4 {
+				sh = sh[:4]
+			}
+			return fmt.Sprintf("%d slices reachable from both %s, e.g. %s", n, what, strings.Join(sh, " "))
+		}
+		detail := report(eval, cp, "the evaluator and its ShallowCopy")
+		if detail == "" {
+			detail = report(cp, cp2, "two ShallowCopies")
+		}
+		if detail == "" {
+			detail = report(eval.Evaluator, eval.Evaluator.ShallowCopy(), "the ckks.Evaluator and its ShallowCopy")
+		}
+		c.Probe("shallowcopy_no_shared_scratch", tag, "C18-shallowcopy-shared-buffers", detail)
+		c.Count("shallowcopy_wiring")
+
+		fresh := func() *rlwe.Ciphertext {
+			pt := ckks.NewPlaintext(res, firstLevel)
+			pt.LogDimensions = ring.Dimensions{Rows: 0, Cols: maxCtSlots}
+			must(ecd.Encode(c18Vals(c, 1<<maxCtSlots, ci), pt))
+			ct, err := enc.EncryptNew(pt)
+			must(err)
+			return ct
+		}
+		ctA, ctB, ctC := fresh(), fresh(), fresh()
+		boot := func(ev *bootstrapping.Evaluator, ct *rlwe.Ciphertext) *rlwe.Ciphertext {
+			var out *rlwe.Ciphertext
+			Try(func() string { out, _ = ev.Bootstrap(ct.CopyNew()); return "" })
+			return out
+		}
+		detail = ""
+		base := boot(eval, ctA)
+		h0 := c18HashBuffers(eval.Evaluator.Evaluator.EvaluatorBuffers)
+		seqB := boot(cp, ctB)
+		h1 := c18HashBuffers(eval.Evaluator.Evaluator.EvaluatorBuffers)
+		again := boot(eval, ctA)
+		switch {
+		case base == nil || seqB == nil || again == nil:
+			detail = "Bootstrap failed"
+		case h1 != h0:
+			detail = "a Bootstrap on the ShallowCopy changed the receiver's BuffCt/BuffQP/BuffInvNTT/BuffDecompQP"
+		case !c18CtEqual(base, again):
+			detail = "the receiver's result changed after a Bootstrap on its ShallowCopy"
+		}
+		c.Probe("shallowcopy_interleaved", tag, "C18-shallowcopy-shared-buffers", detail)
+
+		if c.Thorough() {
+			seqC := boot(cp2, ctC)
+			detail = ""
+			for round := 0; round < 2 && detail == ""; round++ {
+				outs := make([]*rlwe.Ciphertext, 3)
+				var wg sync.WaitGroup
+				for i, job := range []struct {
+					ev *bootstrapping.Evaluator
+					ct *rlwe.Ciphertext
+				}{{eval, ctA}, {cp, ctB}, {cp2, ctC}} {
+					wg.Add(1)
+					go func(i int, ev *bootstrapping.Evaluator, ct *rlwe.Ciphertext) {
+						defer wg.Done()
+						outs[i] = boot(ev, ct)
+					}(i, job.ev, job.ct)
+				}
+				wg.Wait()
+				for i, want := range []*rlwe.Ciphertext{base, seqB, seqC} {
+					if !c18CtEqual(want, outs[i]) {
+						detail = fmt.Sprintf("concurrent Bootstrap on evaluator %d (0 = receiver, 1,2 = copies) differs from its sequential result (round %d)", i, round)
+					}
+				}
+			}
+			c.Probe("shallowcopy_concurrent", tag, "C18-shallowcopy-shared-buffers", detail)
+		}
 	}
 }
